@@ -22,7 +22,13 @@ def lazy_caches(index, cls_key):
             for s in m.body:
                 if isinstance(s, ast.If) and isinstance(s.test, ast.Compare) and len(s.test.ops) == 1 and isinstance(s.test.ops[0], ast.Is) \
                         and isinstance(s.test.comparators[0], ast.Constant) and s.test.comparators[0].value is None:
-                    c = U.chain(s.test.left)
+                    left = s.test.left
+                    if isinstance(left, ast.Name):
+                        # a local that holds the cached value: v = self._x; if v is None: ...
+                        binds = [a for a in ast.walk(m) if isinstance(a, ast.Assign) and len(a.targets) == 1 and isinstance(a.targets[0], ast.Name) and a.targets[0].id == left.id]
+                        if len(binds) == 1:
+                            left = binds[0].value
+                    c = U.chain(left)
                     if c and c[0] == 'self' and len(c) == 2:
                         fld = c[1]
                         assigns = [a for a in ast.walk(s) if isinstance(a, ast.Assign) and any(U.chain(t) == ('self', fld) for t in a.targets)]
